@@ -3,6 +3,26 @@
 From FV Require Import Base TextModel TextProofs TextProofs2 TextProofs3 TextProofs4.
 Open Scope N_scope.
 
+#[local] Opaque dec.
+#[local] Arguments h_version {TS} _.
+#[local] Arguments h_ts {TS} _.
+#[local] Arguments h_command {TS} _.
+#[local] Arguments h_base_dir {TS} _.
+#[local] Arguments h_stats {TS} _.
+#[local] Arguments mkHeader {TS} _ _ _ _ _.
+#[local] Arguments write_header _ {TS} _ _.
+#[local] Arguments write_text _ {TS} _ _ _.
+#[local] Arguments read_header {TS} _ _.
+#[local] Arguments read_report {TS} _ _.
+#[local] Arguments HOk {TS} _ _.
+#[local] Arguments HErr {TS}.
+#[local] Arguments HPanic {TS}.
+#[local] Arguments RepText {TS} _ _ _.
+#[local] Arguments RepHeaderErr {TS}.
+#[local] Arguments RepHeaderPanic {TS}.
+#[local] Arguments RepJson {TS}.
+#[local] Arguments RepUnknown {TS}.
+
 (* ------------------------------------------------------------------------------------------ *)
 (* well-formed report data *)
 
@@ -83,6 +103,12 @@ Hypothesis ts_roundtrip : forall t, ts_ok t ->
   Forall (fun b => 32 <= b < 127) (fmt_ts t) /\ parse_ts (str_trim (fmt_ts t)) = Some t.
 
 Notation header := (header TS).
+Local Notation write_group_header := (TextModel.write_group_header human).
+Local Notation write_group := (TextModel.write_group human).
+Local Notation write_header := (TextModel.write_header human fmt_ts).
+Local Notation write_text := (TextModel.write_text human fmt_ts).
+Local Notation read_header := (TextModel.read_header parse_ts).
+Local Notation read_report := (TextModel.read_report parse_ts).
 
 Definition header_ok (h : header) : Prop :=
   version_ok (h_version h) /\ ts_ok (h_ts h) /\ Forall arg_ok (h_command h) /\ path_ok (h_base_dir h) /\
@@ -98,11 +124,11 @@ Proof.
   exists (stfu8_encode r). repeat split; [assumption|]. constructor; [lia|assumption].
 Qed.
 
-Lemma read_paths_ok files rest : Forall path_ok files ->
-  read_paths (length files) (flat_map write_path_line files ++ rest) = RPOk files rest.
+Lemma read_path_line p st k : path_ok p ->
+  read_paths (S k) (write_path_line p ++ st) =
+  match read_paths k st with RPOk ps r => RPOk (p :: ps) r | e => e end.
 Proof.
-  induction 1 as [|p files Hp Hf IH]; [reflexivity|].
-  cbn [length flat_map read_paths]. unfold write_path_line at 1.
+  intros Hp. cbn [read_paths]. unfold write_path_line.
   destruct (path_line_props p Hp) as (e & Ee & Se & Ne). rewrite Ee.
   set (content := S_INDENT ++ 47 :: e).
   assert (Hc : no_ctl content).
@@ -110,20 +136,27 @@ Proof.
   assert (Hs : is_str content).
   { apply is_str_app; [apply is_str_ascii; repeat constructor; lia|].
     change (47 :: e) with ([47] ++ e). apply is_str_app; [apply is_str_ascii; repeat constructor; lia|assumption]. }
-  replace ((S_INDENT ++ (47 :: e) ++ NL) ++ flat_map write_path_line files ++ rest)
-    with (content ++ 10 :: (flat_map write_path_line files ++ rest)).
-  2:{ unfold content, NL. rewrite <- !app_assoc. cbn [app]. rewrite <- app_assoc. reflexivity. }
+  assert (E0 : (S_INDENT ++ (47 :: e) ++ NL) ++ st = content ++ 10 :: st).
+  { unfold content, NL. rewrite <- !app_assoc. cbn [app]. rewrite <- ?app_assoc. reflexivity. }
+  rewrite E0.
   rewrite read_line_full; [|apply no_ctl_not_in; [assumption|lia]|assumption].
   assert (El : content ++ [10] = S_INDENT ++ (47 :: e) ++ [10]).
   { unfold content. rewrite <- app_assoc. reflexivity. }
-  rewrite El. cbn [S_INDENT app]. cbn [strip_prefix]. change (32 =? 32) with true. cbv iota.
-  change (32 :: 32 :: 32 :: 32 :: 47 :: e ++ [10]) with (S_INDENT ++ (47 :: e) ++ [10]).
+  rewrite El. rewrite strip_prefix_app.
   pose proof (str_trim_indent_line e Se) as Ht.
   destruct (str_trim (S_INDENT ++ (47 :: e) ++ [10])) as [|t0 t1] eqn:Et; [contradiction|].
   cbn [nonempty].
-  change (47 :: e ++ [10]) with ((47 :: e) ++ [10]).
   rewrite strip_eol_line; [|apply no_ctl_not_in; [assumption|lia]].
-  rewrite <- Ee, (path_decode_encode p Hp), IH. reflexivity.
+  rewrite <- Ee, (path_decode_encode p Hp).
+  destruct (S_INDENT ++ path_to_escaped p ++ [10]) eqn:Ez; [|reflexivity].
+  cbn in Ez. discriminate.
+Qed.
+
+Lemma read_paths_ok files rest : Forall path_ok files ->
+  read_paths (length files) (flat_map write_path_line files ++ rest) = RPOk files rest.
+Proof.
+  induction 1 as [|p files Hp Hf IH]; [reflexivity|].
+  cbn [length flat_map]. rewrite <- app_assoc, (read_path_line p _ _ Hp), IH. reflexivity.
 Qed.
 
 (* ---- group header ---- *)
@@ -164,9 +197,6 @@ Proof.
   rewrite strip_prefix_app.
   rewrite (span_app is_digit (dec (g_len g))); [|assumption|reflexivity].
   destruct (dec (g_len g)) as [|d0 dr] eqn:Ed; [contradiction|]. cbn [nonempty].
-  change (S_B_PAREN ++ human (g_len g) ++ S_PAREN_STAR ++ dec (N.of_nat (length (g_files g))) ++ [58] ++ tail)
-    with (S_B ++ ([40] ++ human (g_len g) ++ [41; 32]) ++ S_STAR ++ dec (N.of_nat (length (g_files g))) ++ [58] ++ tail)
-    || idtac.
   replace (S_B_PAREN ++ human (g_len g) ++ S_PAREN_STAR ++ dec (N.of_nat (length (g_files g))) ++ [58] ++ tail)
     with (S_B ++ ([40] ++ human (g_len g) ++ [41; 32]) ++ S_STAR ++ dec (N.of_nat (length (g_files g))) ++ [58] ++ tail)
     by (rewrite <- !app_assoc; reflexivity).
@@ -203,12 +233,15 @@ Proof.
   - cbn [app]. rewrite <- !app_assoc. reflexivity.
   - assumption.
   - constructor; [lia|].
-    repeat (apply Forall_app; split); try (repeat constructor; lia).
-    + eapply Forall_weaken; [|exact Hr]. cbv beta. intros; lia.
-    + eapply Forall_weaken; [|exact D2]. cbv beta. intros; lia.
-    + eapply Forall_weaken; [|exact Hh]. cbv beta. intros; lia.
-    + eapply Forall_weaken; [|exact C2]. cbv beta. intros; lia.
-  - intros [E|Hi]; [lia|].
+    apply Forall_app; split; [|repeat constructor; lia].
+    apply Forall_app; split; [eapply Forall_weaken; [|exact Hr]; cbv beta; intros; lia|].
+    apply Forall_app; split; [repeat constructor; lia|].
+    apply Forall_app; split; [eapply Forall_weaken; [|exact D2]; cbv beta; intros; lia|].
+    apply Forall_app; split; [repeat constructor; lia|].
+    apply Forall_app; split; [eapply Forall_weaken; [|exact Hh]; cbv beta; intros; lia|].
+    apply Forall_app; split; [repeat constructor; lia|].
+    eapply Forall_weaken; [|exact C2]. cbv beta. intros; lia.
+  - intros [E|Hi]; [subst x0; vm_compute in Hx0; discriminate|].
     repeat (apply in_app_or in Hi; destruct Hi as [Hi|Hi]).
     + rewrite Forall_forall in Hr. specialize (Hr 58 Hi). unfold is_hexl, is_digit in Hxr.
       rewrite Forall_forall in Hxr. specialize (Hxr 58 Hi). vm_compute in Hxr. discriminate.
@@ -289,6 +322,163 @@ Lemma groups_length gs : (length gs <= length (flat_map write_group gs))%nat.
 Proof.
   induction gs as [|g gs IH]; [cbn; lia|]. cbn [flat_map length]. rewrite app_length.
   pose proof (write_group_ne g). destruct (write_group g); [contradiction|]. cbn [length]. lia.
+Qed.
+
+(* ---- header ---- *)
+
+Lemma read_hline_ok P body rest :
+  (exists P', P = 35 :: P' /\ Forall (fun b => 32 <= b < 128) P') -> no_ctl body -> is_str body ->
+  read_hline ((P ++ body) ++ 10 :: rest) = Some (P ++ body, rest).
+Proof.
+  intros (P' & -> & HP) Hn Hs. unfold read_hline.
+  assert (Hc : no_ctl (35 :: P' ++ body)).
+  { constructor; [lia|]. apply no_ctl_app. split; [|assumption]. eapply Forall_weaken; [|exact HP]. cbv beta. intros; lia. }
+  assert (Hs' : is_str (P' ++ body)).
+  { apply is_str_app; [|assumption]. apply is_str_ascii. eapply Forall_weaken; [|exact HP]. cbv beta. intros; lia. }
+  cbn [app]. change (35 :: (P' ++ body) ++ 10 :: rest) with ((35 :: P' ++ body) ++ 10 :: rest).
+  rewrite read_line_full.
+  - cbn [app]. rewrite str_trim_start_id; [|lia|reflexivity|].
+    + change (35 :: (P' ++ body) ++ [10]) with ((35 :: P' ++ body) ++ [10]).
+      rewrite strip_eol_line; [reflexivity|]. apply no_ctl_not_in; [assumption|lia].
+    + apply is_str_app; [assumption|apply is_str_ascii; repeat constructor; lia].
+  - apply no_ctl_not_in; [assumption|lia].
+  - change (35 :: P' ++ body) with ([35] ++ P' ++ body). apply is_str_app; [|assumption].
+    apply is_str_ascii. repeat constructor; lia.
+Qed.
+
+Lemma take_digits_app d r : digits_ne d -> hd_fails is_digit r -> take_digits (d ++ r) = Some (d, r).
+Proof.
+  intros [Hne Hd] Hr. unfold take_digits. rewrite (span_app _ _ _ Hd Hr). destruct d; [contradiction|reflexivity].
+Qed.
+
+Lemma re_version_ok v : version_ok v -> re_version (P_VERSION ++ v) = Some v.
+Proof.
+  intros (d1 & d2 & d3 & -> & H1 & H2 & H3). unfold re_version. rewrite strip_prefix_app.
+  rewrite (take_digits_app d1 _ H1) by reflexivity. cbn [app]. change (46 =? 46) with true. cbv iota.
+  rewrite (take_digits_app d2 _ H2) by reflexivity. change (46 =? 46) with true. cbv iota.
+  rewrite <- (app_nil_r d3) at 1. rewrite (take_digits_app d3 [] H3) by exact I. reflexivity.
+Qed.
+
+Lemma re_size_count_ok prefix size count tail : hd_fails is_digit tail ->
+  re_size_count prefix (size_line human prefix size count tail) = Some (dec size, dec count, tail).
+Proof.
+  intros Ht. unfold re_size_count, size_line. rewrite strip_prefix_app.
+  rewrite take_digits_dec by reflexivity. rewrite strip_prefix_app.
+  destruct (human_props size) as (_ & _ & H41 & _ & Hne).
+  rewrite (span_app (fun b => negb (b =? 41)) (human size)); [|assumption|reflexivity].
+  destruct (human size) as [|h0 hr] eqn:Eh; [contradiction|]. cbn [nonempty].
+  rewrite strip_prefix_app. rewrite take_digits_dec by assumption. reflexivity.
+Qed.
+
+Lemma ascii_prefix P : (exists P', P = 35 :: P' /\ Forall (fun b => 32 <= b < 128) P') -> no_ctl P /\ is_str P.
+Proof.
+  intros (P' & -> & H). split.
+  - constructor; [lia|]. eapply Forall_weaken; [|exact H]. cbv beta. intros; lia.
+  - apply is_str_ascii. constructor; [lia|]. eapply Forall_weaken; [|exact H]. cbv beta. intros; lia.
+Qed.
+
+Lemma digits_props d : Forall (fun b => is_digit b = true) d -> no_ctl d /\ is_str d.
+Proof.
+  intros H. apply digits_range in H. split.
+  - eapply Forall_weaken; [|exact H]. cbv beta. intros; lia.
+  - apply is_str_ascii. eapply Forall_weaken; [|exact H]. cbv beta. intros; lia.
+Qed.
+
+Lemma lit_props l : Forall (fun b => 32 <= b < 128) l -> no_ctl l /\ is_str l.
+Proof.
+  intros H. split.
+  - eapply Forall_weaken; [|exact H]. cbv beta. intros; lia.
+  - apply is_str_ascii. eapply Forall_weaken; [|exact H]. cbv beta. intros; lia.
+Qed.
+
+Lemma props_app l1 l2 : no_ctl l1 /\ is_str l1 -> no_ctl l2 /\ is_str l2 -> no_ctl (l1 ++ l2) /\ is_str (l1 ++ l2).
+Proof. intros [A1 A2] [B1 B2]. split; [apply no_ctl_app; split; assumption|apply is_str_app; assumption]. Qed.
+
+Lemma size_body_props size count tail : Forall (fun b => 32 <= b < 128) tail ->
+  let body := dec size ++ S_B_PAREN ++ human size ++ S_PAREN_IN ++ dec count ++ tail in
+  no_ctl body /\ is_str body.
+Proof.
+  intros Ht. cbv zeta.
+  destruct (human_props size) as (Hh & _). destruct (dec_props size) as [_ D1]. destruct (dec_props count) as [_ D2].
+  repeat apply props_app; try (apply digits_props; assumption); try (apply lit_props; repeat constructor; lia).
+  - apply lit_props. eapply Forall_weaken; [|exact Hh]. cbv beta. intros; lia.
+  - apply lit_props. assumption.
+Qed.
+
+Definition P_ok (P : list N) : Prop := exists P', P = 35 :: P' /\ Forall (fun b => 32 <= b < 128) P'.
+
+Lemma P_VERSION_ok : P_ok P_VERSION. Proof. eexists; split; [reflexivity|repeat constructor; lia]. Qed.
+Lemma P_TIMESTAMP_ok : P_ok P_TIMESTAMP. Proof. eexists; split; [reflexivity|repeat constructor; lia]. Qed.
+Lemma P_COMMAND_ok : P_ok P_COMMAND. Proof. eexists; split; [reflexivity|repeat constructor; lia]. Qed.
+Lemma P_BASE_DIR_ok : P_ok P_BASE_DIR. Proof. eexists; split; [reflexivity|repeat constructor; lia]. Qed.
+Lemma P_TOTAL_ok : P_ok P_TOTAL. Proof. eexists; split; [reflexivity|repeat constructor; lia]. Qed.
+Lemma P_REDUNDANT_ok : P_ok P_REDUNDANT. Proof. eexists; split; [reflexivity|repeat constructor; lia]. Qed.
+Lemma P_MISSING_ok : P_ok P_MISSING. Proof. eexists; split; [reflexivity|repeat constructor; lia]. Qed.
+
+Lemma read_header_ok h rest : header_ok h -> read_header (write_header h ++ rest) = HOk h rest.
+Proof.
+  destruct h as [v t cmd base st]. intros (Hv & Ht & Hc & Hp & s & Es & Hs). cbn [h_version h_ts h_command h_base_dir h_stats] in *.
+  subst st. destruct s as [sg stc sts src srs smc sms]. destruct Hs as (U1 & U2 & U3 & U4 & U5 & U6 & U7).
+  cbn [s_groups s_total_count s_total_size s_red_count s_red_size s_miss_count s_miss_size] in *.
+  destruct (ts_roundtrip t Ht) as [Tp Tr].
+  pose proof Hv as (d1 & d2 & d3 & Ev & (_ & V1) & (_ & V2) & (_ & V3)).
+  set (tail5 := S_FILES_IN ++ dec sg ++ S_GROUPS).
+  set (b5 := dec sts ++ S_B_PAREN ++ human sts ++ S_PAREN_IN ++ dec stc ++ tail5).
+  set (b6 := dec srs ++ S_B_PAREN ++ human srs ++ S_PAREN_IN ++ dec src ++ S_FILES).
+  set (b7 := dec sms ++ S_B_PAREN ++ human sms ++ S_PAREN_IN ++ dec smc ++ S_FILES).
+  assert (E : write_header (mkHeader v t cmd base (Some (mkStats sg stc sts src srs smc sms))) ++ rest =
+              (P_VERSION ++ v) ++ 10 :: ((P_TIMESTAMP ++ fmt_ts t) ++ 10 :: ((P_COMMAND ++ join cmd) ++ 10 ::
+              ((P_BASE_DIR ++ path_to_escaped base) ++ 10 :: ((P_TOTAL ++ b5) ++ 10 :: ((P_REDUNDANT ++ b6) ++ 10 ::
+              ((P_MISSING ++ b7) ++ 10 :: rest))))))).
+  { unfold TextModel.write_header, write_stats, size_line, b5, b6, b7, tail5, NL.
+    cbn [h_version h_ts h_command h_base_dir h_stats s_groups s_total_count s_total_size s_red_count s_red_size s_miss_count s_miss_size].
+    rewrite <- !app_assoc. reflexivity. }
+  rewrite E. clear E. unfold TextModel.read_header.
+  (* line 1 *)
+  rewrite (read_hline_ok P_VERSION v _ P_VERSION_ok).
+  2:{ rewrite Ev. repeat (apply no_ctl_app; split); try (apply digits_props; assumption); repeat constructor; lia. }
+  2:{ rewrite Ev. repeat apply is_str_app; try (apply digits_props; assumption); apply is_str_ascii; repeat constructor; lia. }
+  cbv beta iota. rewrite (re_version_ok v Hv). cbv beta iota.
+  (* line 2 *)
+  rewrite (read_hline_ok P_TIMESTAMP (fmt_ts t) _ P_TIMESTAMP_ok).
+  2:{ eapply Forall_weaken; [|exact Tp]. cbv beta. intros; lia. }
+  2:{ apply is_str_ascii. eapply Forall_weaken; [|exact Tp]. cbv beta. intros; lia. }
+  cbv beta iota. rewrite strip_prefix_app, Tr. cbv beta iota.
+  (* line 3 *)
+  destruct (join_props cmd (arg_ok_bytes _ Hc)) as [J1 J2].
+  rewrite (read_hline_ok P_COMMAND (join cmd) _ P_COMMAND_ok J1 J2).
+  cbv beta iota. rewrite strip_prefix_app, (split_join cmd Hc). cbv beta iota.
+  (* line 4 *)
+  destruct Hp as (Hb & Hz & Habs & Hn).
+  destruct (encode_props base Hb) as [B1 B2].
+  rewrite (read_hline_ok P_BASE_DIR (path_to_escaped base) _ P_BASE_DIR_ok B1 B2).
+  cbv beta iota. rewrite strip_prefix_app, (path_decode_encode base (conj Hb (conj Hz (conj Habs Hn)))). cbv beta iota.
+  (* line 5 *)
+  assert (T5 : Forall (fun b => 32 <= b < 128) tail5).
+  { unfold tail5. destruct (dec_props sg) as [_ D]. apply digits_range in D.
+    repeat (apply Forall_app; split); try (repeat constructor; lia). eapply Forall_weaken; [|exact D]. cbv beta. intros; lia. }
+  destruct (size_body_props sts stc tail5 T5) as [N5 S5]. fold b5 in N5, S5.
+  rewrite (read_hline_ok P_TOTAL b5 _ P_TOTAL_ok N5 S5). cbv beta iota.
+  unfold re_total. change (P_TOTAL ++ b5) with (size_line human P_TOTAL sts stc tail5).
+  rewrite re_size_count_ok by reflexivity. unfold tail5. rewrite strip_prefix_app.
+  rewrite take_digits_dec by reflexivity. cbv beta iota.
+  change (strip_prefix S_GROUPS S_GROUPS) with (Some (@nil N)). cbv beta iota.
+  rewrite (parse_u64_dec sts U3), (parse_u64_dec stc U2), (parse_u64_dec sg U1). cbv beta iota.
+  (* line 6 *)
+  assert (TF : Forall (fun b => 32 <= b < 128) S_FILES) by (repeat constructor; lia).
+  destruct (size_body_props srs src S_FILES TF) as [N6 S6]. fold b6 in N6, S6.
+  rewrite (read_hline_ok P_REDUNDANT b6 _ P_REDUNDANT_ok N6 S6). cbv beta iota.
+  unfold re_two. change (P_REDUNDANT ++ b6) with (size_line human P_REDUNDANT srs src S_FILES).
+  rewrite re_size_count_ok by reflexivity.
+  change (strip_prefix S_FILES S_FILES) with (Some (@nil N)). cbv beta iota.
+  rewrite (parse_u64_dec srs U5), (parse_u64_dec src U4). cbv beta iota.
+  (* line 7 *)
+  destruct (size_body_props sms smc S_FILES TF) as [N7 S7]. fold b7 in N7, S7.
+  rewrite (read_hline_ok P_MISSING b7 _ P_MISSING_ok N7 S7). cbv beta iota.
+  change (P_MISSING ++ b7) with (size_line human P_MISSING sms smc S_FILES).
+  rewrite re_size_count_ok by reflexivity.
+  change (strip_prefix S_FILES S_FILES) with (Some (@nil N)). cbv beta iota.
+  rewrite (parse_u64_dec sms U7), (parse_u64_dec smc U6). reflexivity.
 Qed.
 
 End ReportProofs.
